@@ -95,6 +95,18 @@ func runC07(o opts) error {
 				}
 			}
 		}
+		// graphemes are measured with the width method that matches what the replies established, also by the
+		// library's own text widgets (pager, text input): clusters whose width depends on the method, each followed
+		// by a sentinel, on terminals with and without Unicode core / explicit width
+		for v, m := range []int{0, 1 << 1, 1 << 14, 1<<1 | 1<<14, full, full &^ (1 << 1), full &^ (1 << 14), full &^ (1<<1 | 1<<14),
+			rng.Intn(1 << 15), rng.Intn(1<<15) &^ (1<<1 | 1<<14), rng.Intn(1<<15) | 1<<14, rng.Intn(1<<15) | 1<<1} {
+			scns = append(scns, c07.WidgetSession(m, v%2 == 1, v), c07.WidgetSession(m, v%2 == 0, v+rng.Intn(12)))
+		}
+		// ... nor on the application id the terminal reports in its reply to the OSC 176 query (any string)
+		for v, id := range []string{"org.example;profile=work", "a;b;c", ";", "x y", "org.example.App"} {
+			scns = append(scns, c07.AppIDSession(1<<13, v%2 == 0, v, id), c07.AppIDSession(full, v%2 == 1, v, id),
+				c07.AppIDSession(1<<13|rng.Intn(1<<15), rng.Intn(2) == 0, v, id))
+		}
 	}
 	sink, err := trace.NewSink(o.out, o.shards)
 	if err != nil {
